@@ -13,6 +13,7 @@ BalSmall11 == BalSmall(E1, K1)
 BalSmall22 == BalSmall(E2, K2)
 BalSmall23 == BalSmall(E2, K3)
 BalSmall21 == BalSmall(E2, K1)
+BalSmall12 == BalSmall(E1, K2)
 BalSmall32 == BalSmall(E3, K2)
 BalSmall33 == BalSmall(E3, K3)
 WqOf(E, K) == [k \in A(E, K) |-> IF k = "K1" THEN 2 ELSE 0]
@@ -20,6 +21,7 @@ Wq11 == WqOf(E1, K1)
 Wq22 == WqOf(E2, K2)
 Wq23 == WqOf(E2, K3)
 Wq21 == WqOf(E2, K1)
+Wq12 == WqOf(E1, K2)
 Wq32 == WqOf(E3, K2)
 Wq33 == WqOf(E3, K3)
 LockOf(E, K) == [k \in A(E, K) |-> CASE k = "K1" -> "unlocked" [] k = "K2" -> "locked" [] OTHER -> "none"]
@@ -27,6 +29,7 @@ Lock11 == LockOf(E1, K1)
 Lock22 == LockOf(E2, K2)
 Lock23 == LockOf(E2, K3)
 Lock21 == LockOf(E2, K1)
+Lock12 == LockOf(E1, K2)
 Lock32 == LockOf(E3, K2)
 Lock33 == LockOf(E3, K3)
 
@@ -49,6 +52,7 @@ TKBasic == {"call", "create"}
 TKBasicIn == {"call", "create", "inbound"}
 TKGas == {"call", "sdata", "kquai", "xsend"}
 TKMulti == {"call", "create"}
+TKCreate == {"create"}
 TKAll == {"call", "create", "sdata", "kquai", "xsend", "inbound"}
 OKNone == {}
 OKEtx == {"ETX"}
@@ -60,10 +64,12 @@ DSome2 == {"elig", "inelig"}
 AAll == {"zero", "minm1", "min", "bal", "balp1", "max"}
 ASome == {"zero", "min", "balp1", "max"}
 ASome2 == {"min", "balp1"}
+AMin == {"min"}
 GAll == {"lt", "ok", "gt64", "ltetx", "lttx", "gtavail"}
 GOk == {"ok"}
 FAll == {"zero", "one", "ovf"}
 FSome == {"zero", "one"}
+FOne == {"one"}
 ALAll == {"empty", "good", "bad"}
 ALSome == {"good", "bad"}
 
@@ -72,12 +78,14 @@ U == 1000000
 BalReal(E, K) == [a \in A(E, K) |-> CASE a \in E -> 60 * U [] a \in K -> 5 * U [] a = "Q" -> 50 * U [] a = "Z" -> 1 * U [] OTHER -> 0]
 BalReal11 == BalReal(E1, K1)
 BalReal21 == BalReal(E2, K1)
+BalReal12 == BalReal(E1, K2)
 BalReal22 == BalReal(E2, K2)
 BalReal32 == BalReal(E3, K2)
 BalReal33 == BalReal(E3, K3)
 WqRealOf(E, K) == [k \in A(E, K) |-> IF k = "K1" THEN 2 * U ELSE 0]
 WqReal11 == WqRealOf(E1, K1)
 WqReal21 == WqRealOf(E2, K1)
+WqReal12 == WqRealOf(E1, K2)
 WqReal22 == WqRealOf(E2, K2)
 WqReal32 == WqRealOf(E3, K2)
 WqReal33 == WqRealOf(E3, K3)
